@@ -5,10 +5,16 @@
                 the sources the site passes), spec = firstConfigured (what the property demands)
     c18 silent <site> <kind> <wrapper> <applicable> <configured> <silent>   → the same with the sources in
         <silent> configured to answer "": model/spec are evaluated on configured \ silent
+    c18 hist <site> <call,call,…>                               → the global configuration is reached by a HISTORY of
+        SetConfig calls (R = SetConfig(nil); S<c><l> = SetConfig(&ZodConfig{CustomError: c, LocaleError: l}) with
+        c ∈ - A B a b, l ∈ - L M l m; "-" = nil field, lower case = a map that answers ""); model = Config.run
+        (SetConfig statement by statement) then the site's wiring, spec = Config.spec (last non-nil value per
+        field since the last reset) then firstConfigured; the winner carries the tag of the map (gA, lM, d)
     c18 loc <locale> <kind>                                      → "<model> <spec>"
         model = the entry of the regenerated Gen.localeTable, spec = 1
 -/
 import Gozod.Model.Msg
+import Gozod.Model.Config
 import Gozod.Gen.MsgWiring
 import Gozod.Gen.LocaleTable
 namespace Gozod.Drv.C18
@@ -24,6 +30,27 @@ def findSite (id : String) : Option Site :=
 
 def setOf (s : String) : SrcSet := if s == "-" then SrcSet.empty else SrcSet.ofString s
 
+open Gozod.Config in
+def parseCall (t : String) : Option (Call String) :=
+  match t.toList with
+  | ['R'] => some .reset
+  | ['S', c, l] =>
+    let f : Char → Option String := fun x => if x == '-' then none else some (String.singleton x)
+    some (.set (f c) (f l))
+  | _ => none
+
+def answers (m : Option String) : Bool :=
+  match m with
+  | some t => t.toList.all Char.isUpper
+  | none => false
+
+/-- winner under a stored global configuration: "g"/"l" + the tag of the answering map, or the base -/
+def histWinner (passes : SrcSet) (base : String) (cfg : Gozod.Config.Cfg String) : String :=
+  let w := siteMessage passes ⟨false, false, false, answers cfg.custom, answers cfg.locale⟩
+  if w = "g" then "g" ++ cfg.custom.getD "" else if w = "l" then "l" ++ cfg.locale.getD "" else base
+
+def all5 : SrcSet := ⟨true, true, true, true, true⟩
+
 def handle : List String → String
   | ["wire", site, _kind, _wrapper, _appl, cfg] =>
     match findSite site with
@@ -35,6 +62,11 @@ def handle : List String → String
     match findSite site with
     | some s => s!"{s.winnerSilent (setOf cfg) (setOf silent)} {firstConfigured eff}"
     | none => "no-such-site -"
+  | ["hist", site, h] =>
+    match findSite site, (h.splitOn ",").mapM parseCall with
+    | some s, some calls =>
+      s!"{histWinner s.passes s.base (Gozod.Config.run calls)} {histWinner all5 "d" (Gozod.Config.spec calls)}"
+    | _, _ => "bad-op -"
   | ["loc", loc, kind] =>
     match Gozod.Gen.localeTable.lookup loc with
     | some row =>
